@@ -31,6 +31,7 @@ ENGINES["h3"] = {
     "package": "server",
     "harness": "server",
     "instrument": ["server", "server/commitlog"],
+    "extra_harness": [("server/commitlog", "commitlog")],
     "fs": [],
     "replace": {"github.com/nats-io/nats.go": "natsgo", "github.com/hashicorp/raft": "raft", "github.com/liftbridge-io/nats-on-a-log": "natslog", "github.com/nats-io/nuid": "nuid"},
     "real_vs_stub": H3_STUB,
@@ -118,6 +119,18 @@ PROPS["C16"] = {
     "level_text": "seeded exploration of publish interleavings (delivery order on the stream subject, preemption of the message loop, batching settings); every history is checked for linearizability against the model 'publish(e) succeeds at L iff e in {-1, L}', and the final log is read back: acknowledged values at their offsets, rejected values nowhere, at most one winner per expected offset, waived checks never rejected",
     "level_note": "single server, replication factor 1, no faults; histories with an unknown outcome (time-out) are not fed to the linearizability checker",
     "rule": "programs of <=28 (thorough <=44) publishes by 2-8 clients with expected offsets from {-1, current, stale, future}; distinct = distinct event-log hash; non-trivial = at least one accepted and one rejected publish among >=4",
+    "assumptions": H3_ASSUME,
+}
+
+PROPS["C10"] = {
+    "engine": "h3",
+    "level": "exploration",
+    "budget": {"quick": 45, "thorough": 600},
+    "runs_per_proc": 40,
+    "technique": "deterministic simulation of one real server: sampled log shapes (dense, many segments, compacted-sparse, retention-trimmed, empty, uncommitted tail, read-only) x subscription requests over start x stop x direction through the real Subscribe handler on the fake clock; expected deliveries computed from the documented positions",
+    "level_text": "per sampled log 24 (thorough 160) requests are issued one after the other; for each the delivered sequence must equal the committed retained messages in the requested range, and the subscription must end with the documented status within 5 simulated seconds or keep waiting where asked to",
+    "level_note": "reverse subscriptions combined with a stop position, and reverse from NEW_ONLY/TIMESTAMP, have no documented meaning and are counted as unspecified, not judged; the uncommitted tail is written through the partition's own commit log",
+    "rule": "one evaluation = one log shape with its batch of requests; distinct = distinct event-log hash; non-trivial = >=3 requests judged",
     "assumptions": H3_ASSUME,
 }
 
